@@ -643,7 +643,7 @@ def gen_cases(tier, rng):
     nl = 0
     for name, steps, basic in scen:
         if basic:
-            layouts = BASIC_LAYOUTS if tier == "thorough" else [BASIC_LAYOUTS[nl % 2]]
+            layouts = BASIC_LAYOUTS
         elif tier == "thorough" and not name.startswith("random"):
             layouts = LAYOUTS
         else:
